@@ -237,5 +237,21 @@ func NewSetFromSlice
   loop 0 invariant -1 <= rangeindex && rangeindex < len(slice) && set != nil && fresh(set)
   loop 0 invariant forall x E :: {has(set, x)} has(set, x) == (exists j :: 0 <= j && j <= rangeindex && slice[j] == x)
 
+func NewSetFromKeys
+  property C03
+  ensures[fresh]   result != nil && fresh(setmap(result))
+  ensures[members] forall x K :: {mem(result, x)} mem(result, x) == has(m, x)
+  loop 0 invariant set != nil && fresh(set)
+  loop 0 invariant forall x K :: {has(set, x)} {visited[x]} has(set, x) == visited[x]
+  loop 0 invariant forall x K :: {visited[x]} visited[x] ==> has(m, x)
+
+func NewSetFromValues
+  property C03
+  ensures[fresh]   result != nil && fresh(setmap(result))
+  ensures[members] forall x V :: {mem(result, x)} mem(result, x) == (exists k K :: has(m, k) && m[k] == x)
+  loop 0 invariant set != nil && fresh(set)
+  loop 0 invariant forall x V :: {has(set, x)} has(set, x) == (exists k K :: visited[k] && has(m, k) && m[k] == x)
+  loop 0 invariant forall k K :: {visited[k]} visited[k] ==> has(m, k)
+
 spec memberOfSlice(u []E, x E) bool = exists m :: 0 <= m && m < len(u) && u[m] == x
 @*/
